@@ -1,4 +1,6 @@
 import GrinVerif.Model.SerImpls
+import GrinVerif.Model.SerReaders
+import GrinVerif.Model.DecDb
 /-! # C10 — obligations about the inventory of `Readable` / `Writeable` impls
 
 `Gen/SerImpls.lean` is REGENERATED from the source on every check run (tools/gen_serimpls.py): every
@@ -80,5 +82,63 @@ theorem readers_with_own_lines :
   decide
 
 example : table.any (fun i => i.ty == "PeerData" && i.kind == "R") = true := by decide
+
+/-! ## the `Reader` implementations -/
+
+/-- the three `impl Reader for …` blocks of the tree are the pinned ones: same types, same methods
+defined, same text -/
+theorem reader_impls_match_source : GV.Gen.SerImpls.readerImpls = GV.SerReaders.readers := by decide
+
+/-- the trait has eleven required methods and exactly one default, `read_empty_bytes` -/
+theorem reader_trait_matches_source :
+    (GV.Gen.SerImpls.readerTrait.filter fun m => m.2.2).map (fun m => m.2.1) = GV.SerReaders.defaults
+    ∧ ((GV.Gen.SerImpls.readerTrait.filter fun m => !m.2.2).map fun m => m.2.1) = GV.SerReaders.requiredBuf := by
+  decide
+
+/-- NO reader overrides a method the trait gives a default for: `read_empty_bytes` (the zero-padding
+check of the v1 kernel layout) is the same code for `BinReader`, `StreamingReader` and `BufReader`.
+A reader-specific override breaks this obligation without any input having to hit it. -/
+theorem reader_overrides_none :
+    GV.Gen.SerImpls.readerImpls.all (fun r =>
+      r.2.2.1.all fun m => !(GV.Gen.SerImpls.readerTrait.any fun t => t.2.1 == m && t.2.2)) = true := by
+  decide
+
+/-- every reader defines every required method (nothing is left to a default that is not there) -/
+theorem reader_defines_all_required :
+    GV.Gen.SerImpls.readerImpls.all (fun r =>
+      (GV.Gen.SerImpls.readerTrait.filter fun t => !t.2.2).all fun t => r.2.2.1.contains t.2.1) = true := by
+  decide
+
+/-- the shared default over the model's `read_u8` IS the `readEmpty` every kernel decoder of the model
+uses (`Model/Ser.lean`), for every length and input … -/
+theorem readEmpty_is_the_shared_default (n : Nat) (bs : GV.Bytes) :
+    GV.SerReaders.readEmptyVia GV.Ser.readU8 n bs = GV.Ser.readEmpty n bs := by
+  induction n generalizing bs with
+  | zero => rfl
+  | succ n ih =>
+    unfold GV.SerReaders.readEmptyVia GV.Ser.readEmpty
+    cases h : GV.Ser.readU8 bs with
+    | error e => rfl
+    | ok v =>
+      obtain ⟨b, r⟩ := v
+      simp only
+      split
+      · rfl
+      · exact ih r
+
+/-- … and the three readers have the same `read_u8` / `read_fixed_bytes` within the cap (`BufReader` and
+`BinReader`: `rFixed`; `StreamingReader`: `stream_eq_bin_within_cap` of `Props/C11Db.lean`), so a decoder
+built from the trait's methods cannot tell them apart below 100 000 bytes per read: value, rest and
+error kind. For the capped pair this is `payload_readers_agree` / `item_readers_agree` /
+`segment_readers_agree` of `Props/C11Ser.lean`; the streaming reader's primitive: -/
+theorem stream_u8_is_bin_u8 (bs : GV.Bytes) :
+    (GV.DecDb.sFixed 1 bs).toExcept = (GV.Dec.rFixed .bin 1 bs).toExcept := by
+  unfold GV.DecDb.sFixed GV.Dec.rFixed
+  have h1 : ¬ 1 > GV.Dec.ISIZE_MAX := by decide
+  have h2 : ¬ 1 > GV.Ser.MAX_FIXED_READ := by decide
+  simp only [h1, h2, ↓reduceIte]
+  cases GV.Ser.splitExact 1 bs with
+  | none => rfl
+  | some p => rfl
 
 end GV.Props.C10Impls
